@@ -12,7 +12,10 @@ definition:
              molecule k;  0 otherwise;
 * point-dipole coupling (d1.d2 - 3 (d1.n)(d2.n)) / (4 pi eps0 eps_r R^3) evaluated in SI
   from Debye and Angstrom and expressed as a wavenumber (E = h c nu~);
-* energy-unit factors recomputed from scipy.constants (CODATA of the installed scipy).
+* energy-unit factors recomputed from scipy.constants (CODATA of the installed scipy);
+* molecules with more than two levels (functions ml_*): states = occupation tuples with at most
+  `mult` quanta ordered by band, <s|H|s> = sum of the molecular level energies, and the
+  classification of pairs of states (which elements may be non-zero at all).
 """
 import itertools
 import math
@@ -70,6 +73,88 @@ def check_signatures(sigs, nmol, mult):
     if bands != sorted(bands):
         bad.append("not-ordered-by-band")
     return bad
+
+
+# ---------------------------------------------------------------------------
+# molecules with more than two electronic levels (occupation tuples instead of subsets)
+#
+# state = tuple s with 0 <= s[k] <= nlev[k]-1 (level in which molecule k is), band = sum(s);
+# <s|H|s> = sum_k E_k[s[k]].  Only what does not depend on a model of the higher transitions
+# is defined here: which pairs of states may be connected at all.
+# ---------------------------------------------------------------------------
+def ml_signatures(nlev, mult):
+    """All occupation tuples with at most `mult` quanta, band by band (independent
+    construction: filter of the full cartesian product, stable sort by the number of quanta)."""
+    full = [s for s in itertools.product(*[range(int(n)) for n in nlev]) if sum(s) <= mult]
+    return sorted(full, key=lambda s: sum(s))
+
+
+def ml_band_sizes(nlev, mult):
+    sigs = ml_signatures(nlev, mult)
+    return [sum(1 for s in sigs if sum(s) == b) for b in range(mult + 1)]
+
+
+def ml_check_signatures(sigs, nlev, mult):
+    """Defects of a list that is supposed to enumerate every occupation tuple with <= mult
+    quanta exactly once, ordered by band.  Returns (defect names, missing, unexpected)."""
+    bad = []
+    tup = []
+    for s in sigs:
+        if s is None or len(s) != len(nlev) or \
+                any((int(x) != x) or x < 0 or x >= n for x, n in zip(s, nlev)):
+            return ["malformed"], [], []
+        tup.append(tuple(int(x) for x in s))
+    want = ml_signatures(nlev, mult)
+    if len(set(tup)) != len(tup):
+        bad.append("duplicate")
+    missing = [s for s in want if s not in set(tup)]
+    extra = sorted(set(tup) - set(want))
+    if missing or extra:
+        bad.append("incomplete")
+    bands = [sum(s) for s in tup]
+    if bands != sorted(bands):
+        bad.append("not-ordered-by-band")
+    return bad, missing, extra
+
+
+def ml_energy(levels, sig):
+    """Sum of the molecular level energies of an occupation tuple."""
+    return sum(float(levels[k][int(n)]) for k, n in enumerate(sig))
+
+
+def ml_classify_pair(sa, sb):
+    """(kind, two_level, k, l) for the Hamiltonian element between two occupation tuples:
+    kind 'diag' | 'interband' | 'move' (exactly one quantum moved from molecule k to molecule
+    l) | 'inband-zero'; two_level = neither state has a molecule above its first excited
+    level (the element is then fixed by the two-level Frenkel rule)."""
+    two = max(max(sa, default=0), max(sb, default=0)) <= 1
+    if tuple(sa) == tuple(sb):
+        return "diag", two, -1, -1
+    if sum(sa) != sum(sb):
+        return "interband", two, -1, -1
+    diff = [(k, b - a) for k, (a, b) in enumerate(zip(sa, sb)) if a != b]
+    if len(diff) == 2 and sorted(d for _, d in diff) == [-1, 1]:
+        k = [i for i, d in diff if d == -1][0]
+        l = [i for i, d in diff if d == 1][0]
+        return "move", two, k, l
+    return "inband-zero", two, -1, -1
+
+
+def ml_classify_dipole_pair(sa, sb):
+    """(kind, two_level, k, lo, hi): 'adjacent-one' = bands differ by one and exactly one
+    molecule k changes its level (lo -> hi = lo+1); 'adjacent-zero', 'same-band', 'distant'
+    as for two-level molecules."""
+    two = max(max(sa, default=0), max(sb, default=0)) <= 1
+    d = abs(sum(sa) - sum(sb))
+    if d == 0:
+        return "same-band", two, -1, -1, -1
+    if d >= 2:
+        return "distant", two, -1, -1, -1
+    diff = [k for k, (a, b) in enumerate(zip(sa, sb)) if a != b]
+    if len(diff) == 1:
+        k = diff[0]
+        return "adjacent-one", two, k, min(sa[k], sb[k]), max(sa[k], sb[k])
+    return "adjacent-zero", two, -1, -1, -1
 
 
 # ---------------------------------------------------------------------------
